@@ -1439,3 +1439,29 @@ canary('c07-mode-from-configured-flags', 'C07', CONN, _MODE_OLD, "        let us
        more=[(CONN, "    async fn send_control_message(", _MODE_HELPER % "Some(self.config.flags)")])
 canary('c07-mode-polarity', 'C07', CONN, ".map(|f| !f.has(DistributionFlags::DIST_HDR_ATOM_CACHE))", ".map(|f| f.has(DistributionFlags::DIST_HDR_ATOM_CACHE))", 'mode-polarity')
 benign('benign-c07-mode-default-unreachable', 'C07', CONN, "            .map(|f| !f.has(DistributionFlags::DIST_HDR_ATOM_CACHE))\n            .unwrap_or(true);", "            .map(|f| !f.has(DistributionFlags::DIST_HDR_ATOM_CACHE))\n            .unwrap_or(false);")
+canary('c03-compressed-remainder-whole', 'C03', DEC, "    Ok((&rest[consumed..], owned_term))", "    Ok((&rest[rest.len()..], owned_term))", 'remainder-not-consumed-count')
+canary('c03-old-float-is-normal', 'C03', DEC, "        .map_err(|_| nom::Err::Failure(NomError::new(input, ErrorKind::Float)))?;\n    Ok((input, OwnedTerm::Float(value)))", "        .map_err(|_| nom::Err::Failure(NomError::new(input, ErrorKind::Float)))?;\n    if !value.is_normal() {\n        return Err(nom::Err::Failure(NomError::new(input, ErrorKind::Float)));\n    }\n    Ok((input, OwnedTerm::Float(value)))", 'float-is_normal')
+benign('benign-c03-old-float-finite-only', 'C03', DEC, "        .map_err(|_| nom::Err::Failure(NomError::new(input, ErrorKind::Float)))?;\n    Ok((input, OwnedTerm::Float(value)))", "        .map_err(|_| nom::Err::Failure(NomError::new(input, ErrorKind::Float)))?;\n    let _finite = value.is_finite();\n    Ok((input, OwnedTerm::Float(value)))")
+canary('c06-payload-error-swallowed', 'C06', CONN, """                let message = if !remaining.is_empty() {
+                    let (msg, _) = decoder::decode_with_trailing(remaining)?;
+                    trace!("Decoded message term from pass-through message");
+                    Some(msg)
+                } else {
+                    None
+                };""", """                let message = decoder::decode_with_trailing(remaining)
+                    .ok()
+                    .map(|(msg, _)| msg);""", 'decode-error-swallowed')
+benign('benign-c06-payload-len-test', 'C06', CONN, """                let message = if !remaining.is_empty() {
+                    let (msg, _) = decoder::decode_with_trailing(remaining)?;
+                    trace!("Decoded message term from pass-through message");
+                    Some(msg)
+                } else {
+                    None
+                };""", """                let message = match remaining.len() {
+                    0 => None,
+                    _ => {
+                        let (msg, _) = decoder::decode_with_trailing(remaining)?;
+                        Some(msg)
+                    }
+                };""")
+canary('c10-replay-extra-condition', 'C10', 'crates/erltf/src/encoder.rs', "    if let Some(local_bytes) = &pid.local_ext_bytes {", "    if let Some(local_bytes) = &pid.local_ext_bytes\n        && local_bytes.len() > 12\n    {", 'plain-form-with-raw-bytes')
